@@ -289,8 +289,12 @@ uint64_t hash_case(const Opt& o, const std::vector<mdl::Obj>& D) {
 }
 
 void case_random(uint64_t idx, vh::Rng& rng) {
-    const Opt o = gen_opt(rng);
-    const mdl::GenOpts go = genopts_for(o);
+    Opt o = gen_opt(rng);
+    if (idx < 3) { o.fmt = static_cast<int>(idx); o.meta = 31; }
+    mdl::GenOpts go = genopts_for(o);
+    // changeset id 2^32-1 is a recorded finding for XML (reader rejects the whole file):
+    // keep it in the domain but rare, so that the other XML cases are not masked by it
+    if (o.is_xml()) go.changeset_u32_max = rng.chance(1, 25);
     size_t n;
     switch (rng.below(8)) {
         case 0: n = 0; break;
@@ -298,7 +302,12 @@ void case_random(uint64_t idx, vh::Rng& rng) {
         case 2: n = vh::thorough() ? 300 + rng.below(3000) : 100 + rng.below(300); break;
         default: n = 2 + rng.below(30); break;
     }
-    const std::vector<mdl::Obj> D = mdl::gen_dataset(rng, go, n);
+    std::vector<mdl::Obj> D = mdl::gen_dataset(rng, go, n);
+    if (idx < 3 && o.is_xml() && (o.meta & 4U)) {
+        // fixed witness of the recorded XML finding, so that it is reported on every run
+        mdl::Obj w; w.type = mdl::NODE; w.id = 1; w.version = 1; w.changeset = 0xffffffffU; w.x = 1; w.y = 1;
+        D.insert(D.begin(), w);
+    }
     const mdl::Header H = mdl::gen_header(rng, go.charset);
     vh::set_case_desc("random %s n=%zu", opt_string(o).c_str(), D.size());
     check_case(o, H, D, vh::fmt("random dataset of %zu objects", D.size()));
